@@ -71,6 +71,10 @@ TrFill ==
        \/ Step(Ev.g, SFill(G.c, G.pos, G.pend, Ev.n), Ev.ret)
        \/ /\ Ev.n = 0 /\ G.pend = 1 /\ Ev.ret = <<>>          \* left open by the property, see Stream!SFill
           /\ gens' = [gens EXCEPT ![Ev.g].pend = 0] /\ UNCHANGED words
+       \/ /\ G.c = "half" /\ G.pend = 1 /\ Ev.n \in 1..4          \* the other open corner, see Stream!SFill
+          /\ LET r == SFillFresh(G.pos, Ev.n) IN
+               /\ Resolve(G.w, r.o) = Ev.ret
+               /\ gens' = [gens EXCEPT ![Ev.g].pos = r.p, ![Ev.g].pend = r.h] /\ UNCHANGED words
 
 Init == l = 1 /\ gens = <<>> /\ words = <<>>
 Next == \/ TrReset \/ Ctor("from_seed") \/ Ctor("seed_from_u64") \/ TrJitNew \/ TrSetRounds \/ TrTimer \/ TrBg("bg_start") \/ TrBg("bg_stop")
